@@ -4,7 +4,7 @@ import vlib, hlgen, hleng
 from vlib import hexs
 
 PROP = "C15"
-ALPHA = [b"[", b"]", b",", b"-", b" ", b"\t", b"+", b"a", b"b", b"n", b"0", b"1", b"2", b"5", b"9", b"x", b".", b"\xe9", b"\x01", b"^", b"/", b":", b"@"]
+ALPHA = [b"[", b"]", b",", b"-", b" ", b"\t", b"+", b"a", b"b", b"n", b"0", b"1", b"2", b"5", b"9", b"x", b".", b"\xe9", b"\x01", b"^", b"/", b":", b"@", b"%"]
 BIGNUMS = [b"16383", b"16384", b"16385", b"4294967295", b"4294967296", b"9223372036854775807", b"9223372036854775808",
            b"18446744073709551614", b"18446744073709551615", b"18446744073709551616", b"99999999999999999999",
            b"100000000000000000000", b"340282366920938463463374607431768211456", b"33554431", b"33554432", b"33554433"]
@@ -14,8 +14,22 @@ def gen_labelled(r):
     """inputs whose outcome the property states outright: (bytes, expected prefix or None, label)"""
     pfx = hlgen.gen_text(r, ("alpha", "alnum", "empty"))
     k = r.weighted([("unbal_open", 3), ("unbal_close", 3), ("reversed", 3), ("nonnum", 3), ("toomany", 5), ("toomany_huge", 4),
-                    ("limit_ok", 3), ("both_sat", 2), ("neg", 1), ("empty_range", 2)])
+                    ("limit_ok", 3), ("both_sat", 2), ("neg", 1), ("empty_range", 2), ("bigsuffix", 3), ("exact_big", 3)])
     tail = hlgen.gen_text(r, ("empty", "alpha", "dash")) if r.chance(1, 2) else b""
+    if k == "exact_big":
+        # a short range of large numbers (around 2^25, 2^31, 2^32, 2^63): exactly those hosts, nothing cut to a narrower word
+        lo = r.choice([2 ** 25, 2 ** 31, 2 ** 32, 2 ** 63, 2 ** 64 - 8]) - r.range(0, 3)
+        n = r.range(2, 5)
+        p2 = pfx if pfx else b"h"
+        names = [p2 + b"%d" % (lo + j) for j in range(n)]
+        return p2 + b"[%d-%d]" % (lo, lo + n - 1), "N=%d OK %s" % (n, ",".join(hexs(x) for x in names)), k
+    if k == "bigsuffix":
+        # plain names (no brackets) ending in numbers around 2^25, 2^32, 2^63, 2^64: each word is one host whatever its number;
+        # neighbours (n, n+1) and repeats must neither merge into a range that wraps nor expand
+        p2 = pfx if pfx and not pfx[-1:].isdigit() else pfx + b"h"
+        v = int(r.choice(BIGNUMS))
+        vals = r.choice([[v], [v - 1, v], [v, v + 1], [v - 1, v, v + 1], [v, v], [v, 0], [0, v]])
+        return b",".join(p2 + b"%d" % max(x, 0) for x in vals), "N=%d " % len(vals), k
     if k == "unbal_open":
         return pfx + b"[" + hlgen.render_ranges(hlgen.gen_ranges(r)) + tail, "ERR EINVAL", k
     if k == "unbal_close":
@@ -96,6 +110,10 @@ def run(ctx):
     for _ in range(nlab):
         s, exp, lab = gen_labelled(r)
         cases.append("parse " + hexs(s)); meta.append((exp, lab))
+    for k in range(ncorpus, len(cases)):
+        if meta[k][1] == "bigsuffix" and k % 3 == 0:
+            # the same words through pdsh's second pass over the target list (shift, re-create, push)
+            cases.append("targets " + cases[k].split(" ")[1]); meta.append((None, "bigsuffix-targets"))
     for _ in range(nrand):
         cases.append("parse " + hexs(gen_random(r))); meta.append((None, "random"))
     for _ in range(nlong):
@@ -116,6 +134,9 @@ def run(ctx):
             problem = ("input", "parser crashed / hung / touched memory out of bounds: " + i)
         elif exp is not None and not i.startswith(exp):
             problem = ("input", "expected %s for a %s input" % (exp, lab))
+        elif lab == "bigsuffix-targets":
+            if not i.startswith("OK") or vlib.unhexlist(i.split(" ")[1]) != s.split(b","):
+                problem = ("input", "plain names with large numbers are not the hosts that come out of the target list")
         elif i.startswith("N="):
             n = int(i.split(" ")[0][2:])
             names = vlib.unhexlist(i.split(" ")[2])
@@ -141,7 +162,9 @@ def run(ctx):
     real = realeng.Real(ctx, san=False, tag="real15", null_exec=True)
     nreal, rbad = 0, 0
     bodies = [b"a[1-3", b"a1-3]", b"a[3-1]", b"a[1-x]", b"a[]", b"a[1-99999]", b"a[0-18446744073709551615]", b"[", b"]", b"a[1-2]b[3-", b"a[[1-2]]",
-              b"a[1,,2]", b"a[1-2-3]", b"a[-1]", b",", b"a[1-3]", b"", b" ", b"a b", b"a[1-2]-[0-1]", b"x" * 1100]
+              b"a[1,,2]", b"a[1-2-3]", b"a[-1]", b",", b"a[1-3]", b"", b" ", b"a b", b"a[1-2]-[0-1]", b"x" * 1100,
+              b"a18446744073709551615", b"a18446744073709551614,a18446744073709551615", b"a18446744073709551615,a0", b"a33554432,a33554433", b"a4294967295,a4294967296",
+              b"a9223372036854775807,a9223372036854775808", b"a18446744073709551616"]
     prefixes = [b"", b"bob@", b"exec:", b"exec:bob@", b"nosuch:", b"-", b"@", b":", b"bob@@", b"a:b:c@"]
     cdir15 = os.path.join(vlib.VERIF, "corpus", PROP)
     extra = []
@@ -152,6 +175,24 @@ def run(ctx):
     words = extra + [pf + b for pf in prefixes for b in bodies]
     if not quick:
         words += [r.choice(prefixes) + gen_random(r)[:200] for _ in range(1500)]
+    # text of a refused range is data, also where the diagnostic is printed: conversions in it are shown, not interpreted
+    pct = [b"1-%s%s%s%s%s%s%s%s%s%s", b"%d-2", b"%m", b"1-99999%s", b"1-9%n9999", b"%x-%x", b"%p", b"%5$s", b"%*d", b"1-%%", b"%S-1", b"%.999999d"]
+    for R in pct:
+        for pf in (b"a", b"bob@n", b"exec:q"):
+            wd = pf + b"[" + R + b"]"
+            rc, o, e = real.run(["-Q", "-w", wd], timeout=10, stdin=b"")
+            nreal += 1
+            want = b"`" + R + b"'"
+            if isinstance(e, str):
+                e = e.encode("latin-1")
+            if rc == -999 or rc < 0 or rc >= 128 or want not in e:
+                rbad += 1; bad += 1
+                ctx.violation("input", case={"args": ["-Q", "-w", wd.decode("latin-1")]},
+                              expected="refused cleanly with a diagnostic quoting the range text " + want.decode(), observed="status %d %r" % (rc, e[-200:]), engine="args",
+                              detail="the text of a refused range was not reported as typed (or pdsh crashed): %r" % wd)
+                break
+        if rbad >= 2:
+            break
     for wd in words:
         if b"\0" in wd:
             continue
